@@ -258,7 +258,7 @@ func (e *Engine) RunJob(job *Job, workers int) *JobResult {
 					cond.Broadcast()
 					return
 				}
-				if len(jr.Paths) >= maxPaths {
+				if len(jr.Paths) >= maxPaths || (jobTimeLimit > 0 && time.Since(t0) > jobTimeLimit) {
 					jr.Truncated = true
 					work = nil
 					mu.Unlock()
@@ -284,6 +284,10 @@ func (e *Engine) RunJob(job *Job, workers int) *JobResult {
 	jr.Wall = time.Since(t0)
 	return jr
 }
+
+// jobTimeLimit: wall-clock budget per job; a job that exceeds it is reported truncated
+// (its unexplored paths count as inconclusive, never as success).
+var jobTimeLimit = 150 * time.Second
 
 func trailLess(a, b []int) bool {
 	for i := 0; i < len(a) && i < len(b); i++ {
